@@ -89,7 +89,7 @@ def generate(ctx):
     g1 = behaviours_of(m)
     ctx.cov["g1_programs"] = len(g1)
     rng.shuffle(g1)
-    behs += g1[:(1500 if quick else 20000)]
+    behs += g1[:(3000 if quick else 20000)]
     n1 = len(behs)
     # G2: random program trees over the rich alphabet
     num = 600 if quick else 4000
